@@ -100,6 +100,16 @@ def is_rebound(storage: 'StorageAnalysis', d: Definition) -> bool:
     )
 
 
+def _contains(stmt, site) -> bool:
+    """Is *site* (a defining statement) nested inside *stmt*?"""
+    for attr in ('ift', 'iff', 'body'):
+        block = getattr(stmt, attr, None)
+        for st in getattr(block, 'stmts', ()):
+            if st is site or _contains(st, site):
+                return True
+    return False
+
+
 def binds_by_reference(
     storage: 'StorageAnalysis',
     def_use: DefineUseAnalysis,
@@ -285,8 +295,15 @@ class StorageInfer:
         for c, members in class_members.items():
             if c in external_classes:
                 continue
+            assigns = [d for d in members if isinstance(d, AssignDef)]
+            first = min(assigns, key=lambda d: def_use.def_to_idx[d], default=None)
+            # Also a name that exists before the `if` but is rebound in *both*
+            # branches: the merged value is a class of its own whose first
+            # writer sits inside one branch, so it dominates nothing after it.
             intro_phis = [d for d in members
-                          if isinstance(d, PhiDef) and d.is_intro]
+                          if isinstance(d, PhiDef) and (d.is_intro or (
+                              not d.is_loop and first is not None
+                              and _contains(d.site, first.site)))]
             if intro_phis:
                 anchor_phi = max(intro_phis, key=lambda d: def_use.def_to_idx[d])
                 hoists_before[anchor_phi.site].append(c)
